@@ -1002,6 +1002,8 @@ def check(P, R, tier):
     R.floor("RF2-round", "decoded (date, target, direction, --next) points of the date rounding", nr, 300000)
     nt = rounddecode.run_time_parallel(R, P, "RF2-round", every=(tier == "thorough"), jobs=14)
     R.floor("RF2-round", "decoded (time, target, direction, --next) points of the time rounding", nt, 100000)
+    ndt = rounddecode.run_dt_parallel(R, P, "RF2-round", jobs=14)
+    R.floor("RF2-round", "decoded points of the co-class rounding of date-times", ndt, 20000)
     check_fresh(P, R, tu)
     per_fn = check_fourway(P, R, tu)
     check_same(P, R, per_fn)
@@ -1018,7 +1020,8 @@ LEVEL = ("Decides the date rounding of dround for year-month-day dates by decodi
          "grid of times around every boundary, with the day carry.  Plus structural conditions: the eight value-rounding siblings are "
          "one four-way decision with consistent field, target, direction, carry side and wrap constants; compared = stored on the "
          "no-carry paths; divisor gates of the co-class roundings; packing / splitting constants; carry consumed between time and "
-         "date rounding; fresh period lengths.  NOT decided: rounding of dates held in other calendars (week dates to a week number, "
+         "date rounding; fresh period lengths; dt_round's co-class rounding of date-times to whole days, N months, quarters and "
+         "years decoded with the day carry.  NOT decided: rounding of dates held in other calendars (week dates to a week number, "
          "business-day dates), epoch co-class rounding beyond its structure, and dt_round's composition of several targets.")
 RULE = "obligation = one test / arm / wrap / goto of a sibling, one no-carry path, one gate / move of a co-class rounding, one constant pair"
 ASSUME = ["period lengths (__get_mdays, __get_bdays, __get_isowk) are right (C01)", "dt_dadd adds days exactly (C03)"]
